@@ -333,6 +333,9 @@ static void skc_cases(const Grp &G, unsigned long le, size_t n, unsigned reps) {
 			switch (gen().below(5)) { case 0: mpz_add_ui(w[i], w[i], 1); break; case 1: mpz_add(w[i], w[i], skc.com->q); break; case 2: mpz_sub(w[i], w[i], skc.com->q); break;
 				case 3: mpz_set_ui(w[i], gen().below(2)); break; case 4: mpz_neg(w[i], w[i]); break; }
 			verify(c, w, gen().coin(), true); }
+		// the range rules 0 <= f_i, z, f_Delta_i, z_Delta < q: the same residue outside the range, both verifier variants
+		for (size_t i : { (size_t)(3 + gen().below(n)), (size_t)(3 + n), (size_t)(3 + n + 1 + gen().below(n - 1)), (size_t)(3 + 2 * n) })
+			for (int sg = 0; sg < 2; sg++) for (int opt = 0; opt < 2; opt++) { std::vector<Z> w(vals); if (sg) mpz_add(w[i], w[i], skc.com->q); else mpz_sub(w[i], w[i], skc.com->q); verify(c, w, opt, true); }
 		{ Z c2; gen_below(c2, G.p); verify(c2, vals, gen().coin(), true); }
 		verify(c, vals, false, false);
 	}
